@@ -48,7 +48,7 @@ REQUIRED_MONITORS = {
     "foreign_context": 1000, "fixed_witnesses": 4,
 }
 EXHAUSTIVE = {
-    "single_bit_flip_option": "every bit of every OSCORE option value of every scenario (requests, responses with own Partial IV)",
+    "single_bit_flip_option": "every bit of every OSCORE option value up to 40 bytes (requests, responses with own Partial IV); for longer ones (255-byte ID context) every bit of the first 8 bytes (flag, Partial IV, s) and last 9 bytes (kid) plus 24 random bits",
     "single_bit_flip_ciphertext": "every bit of every ciphertext up to 48 bytes; for longer ones every bit of the first 8 and last 17 bytes plus 64 random bits",
     "truncation": "every proper prefix of every option value and of every ciphertext up to 48 bytes",
     "pairing": "all ordered pairs of distinct requests in a pool of 2 clients x 2 Partial IVs, both nonce modes",
@@ -217,7 +217,7 @@ def judge(ref, recv_recipient_id, recv_id_context, is_request, orig, orig_ct, op
     try:
         o = ref.parse_option(optv)
     except ref.RefError as e:
-        return "must_fail", "malformed:" + str(e)
+        return "must_fail", "malformed-" + "".join(c if c.isalnum() else "-" for c in str(e).lower()).replace("--", "-").strip("-")
     if is_request:
         # the request's Partial IV bytes are the request_piv of the AAD (section 5.4): exact bytes matter
         if o.piv != orig.piv:
@@ -658,7 +658,7 @@ class Engine:
             return
         rep.monitor(family)
         rep.case((t["sig"], manip, field, verdict, outcome), nontrivial=True)
-        rk = reason.replace("malformed:", "malformed-").replace(" ", "-").replace("=", "").replace(",", "")
+        rk = reason
 
         def wit(**kw):
             w = dict(t["where"], manipulation=manip, field=field, expectation=verdict + ": " + reason, genuine_option=t["optv"].hex(), genuine_ciphertext=t["ct"][:96].hex(), genuine_ciphertext_len=len(t["ct"]),
@@ -843,7 +843,7 @@ class Engine:
                         rep.violation("binding/escape-%s/%s" % (type(detail).__name__, escape_mechanism(self.ref, detail, rc.opt1(base, 9))), "cross-paired verification raised %s" % type(detail).__name__, dict(w, tb=rep.exception_witness(detail) if isinstance(detail, BaseException) else None), case)
 
     # -- one scenario ---------------------------------------------------------------------------------
-    def scenario(self, seed, gi, case, light=False):
+    def scenario(self, seed, gi, case):
         rep, ref = self.rep, self.ref
         r = random.Random("c11/%d/%d" % (seed, gi))
         alg = self.algs[gi % len(self.algs)]
@@ -890,13 +890,12 @@ class Engine:
             other_req_ct = bytes(o2.payload)
         except Exception:
             other_req_ct = None
-        for i, t in enumerate(targets):
+        for t in targets:
             if t["is_request"]:
                 other = other_req_ct
             else:
                 other = next((x["ct"] for x in targets[1:] if x is not t), None)
-            if not light or i == 0:
-                self.tamper(t, r, case, other)
+            self.tamper(t, r, case, other)
             self.foreign(sc, t, r, case)
         self.binding(sc, r, case)
 
@@ -965,8 +964,6 @@ def run_shard(shard, rep, only=None):
         case = ["fixed"]
         if only is None or only == case:
             eng.fixed(case)
-        else:
-            rep.monitor("fixed_witnesses", 0)
     for i in range(shard["n"]):
         gi = shard["index"] + shard["of"] * i
         case = ["scn", gi]
